@@ -16,7 +16,7 @@
           new: `Glue.extend_WFP` (well-formedness of the extension's result).
 -/
 import FcProofs.Props.C03
-import FcProofs.Lemmas.GlueLadder
+import FcProofs.Lemmas.GlueLadderEq
 namespace Fc
 open Fc.Spec Fc.C03
 
